@@ -72,7 +72,7 @@ const (
 // finished, and counts as a violation only if it then makes no progress for stallQuietConfirm either.
 const (
 	stallQuiet        = 4 * time.Second
-	stallQuietConfirm = 15 * time.Second
+	stallQuietConfirm = 45 * time.Second
 	maxSuspectsClass  = 4 // after this many suspects of a transport class the rest of that class is skipped (and counted)
 	maxConfirmations  = 2
 	confirmStall      = "stall"   // judge is looking at the second execution of a suspected hang
@@ -411,7 +411,7 @@ func TestProp(t *testing.T) {
 	r.SetRule("scripted HTTP servers on 127.0.0.1 and localhost answer the k-th request of a spnego.Client.Do call with the k-th symbol of a script: every sequence of length <= L over {200, 401 bare Negotiate, 401 Negotiate+reject token, 401 other scheme, 302 same host, 302 other host, 500} followed by each constant tail " +
 		"(L = 3 quick, 5 thorough; exhaustive), crossed with a seeded choice of method GET/HEAD/POST, body size {0,1,4 KiB,300 KiB,1 MiB}, explicit vs URL-derived SPN, the etype of the service ticket (six worlds) and the application's http.Client: redirect policy {none, always allow, allow below n hops, ErrUseLastResponse, refuse}, " +
 		"transport {process default, fresh, MaxConnsPerHost 1 with and without keep-alive}, Client.Timeout {60 s, none}, body sent with a 401 {0, 14, 3000, 70000 bytes}; plus groups of N = 2..4 concurrent calls on one transport with MaxConnsPerHost N. Every request is recorded (headers, body length and SHA-256). " +
-		"Oracle: request count <= 64; Do returns (a call without any progress for 4 s is re-run alone and is a violation if it again makes no progress for 15 s); a bare Negotiate challenge to an unauthenticated request is followed by a retry of that same request (same server, path, method) carrying a token that the reference acceptor (holding the service key of the intended SPN) accepts, with an RFC 4121 4.1.1 authenticator checksum - " +
+		"Oracle: request count <= 64; Do returns (a call without any progress for 4 s is re-run alone and is a violation if it again makes no progress for 45 s); a bare Negotiate challenge to an unauthenticated request is followed by a retry of that same request (same server, path, method) carrying a token that the reference acceptor (holding the service key of the intended SPN) accepts, with an RFC 4121 4.1.1 authenticator checksum - " +
 		"also when Do returns an error (the simulated KDC is healthy and knows every SPN; only if the transport did deliver the challenge to the http.Client, and confirmed by a second execution alone); the body received with an authenticated request equals the original; Do returns the server's last response or an error. distinct = (script, method, body, spn mode, etype); non-trivial = all")
 	r.Assume("independent acceptor = ref/accept over ref/kmsg/ref/kcrypto with one replay state per Do call (the tokens of one call must be distinct authenticators); the JDK GSS acceptor of DESIGN.md is not wired into this check")
 	r.Assume("the simulated KDC answers every well-formed request and holds all three service principals, so the client has no legitimate reason to give up on a challenge; it decodes requests strictly (RFC 4120 DER), as MIT/Heimdal/JDK do")
